@@ -105,7 +105,13 @@ def run(c, facts, tier):
             raw = h.get("kind") == "param"
             argc = [emit.canon(a_) for a_ in h.get("args", [])] if callee else []
             raw_arg = len(argc) == 1 and re.fullmatch(r"@\d+", argc[0]) is not None
+            spec_ = h.get("spec") or ""
             okd = callee in good and {'"', "\\"} <= good[callee] and raw_arg
+            if okd and spec_:
+                # `{mdt:.N$}` / `{mdt:>8}`: a precision cuts the escaped text (two long paths render alike, a cut between a
+                # backslash and the character it escapes breaks the literal), a width pads it — the literal no longer decodes to
+                # the path given
+                c.ob("C20.decodes", "CompiledExpression::scheme", "the escaped path is written in full, nothing cut or padded", False, "format spec `{:%s}` on the device-path hole: the text between the quotes is not the escaped path for every path" % spec_, witness='scheme(<a path longer than the precision>)')
             c.ob(
                 "C20.decodes",
                 "CompiledExpression::scheme",
